@@ -9,6 +9,7 @@ package server
 //@ lockdomain prunner.PipelineJob
 //@ lockdefault none
 //@ func (*server).sendError
+//@   safety
 //@   lockmode none
 //@ func (*server).listPipelines
 //@   lockmode none
@@ -17,11 +18,14 @@ package server
 //@ func (*server).jobLogs$1
 //@   lockmode R
 //@ func (*server).jobDetail$1
+//@   safety
 //@   lockmode R
 //@ func (*server).listPipelineJobs$1
+//@   safety
 //@   lockmode R
 
 //@ func jobToResult
+//@   safety
 //@   lockmode R
 //@   assumes [nonnil] j != nil
 //@   ensures  [C08.errored] res.Errored <==> exists i :: 0 <= i && i < len(j.Tasks) && j.Tasks[i].Errored
@@ -32,5 +36,5 @@ package server
 //@   loop 1 invariant [copied] forall k :: 0 <= k && k <= $i ==> taskResults[k].Name == j.Tasks[k].Name && taskResults[k].Status == j.Tasks[k].Status && taskResults[k].Start == j.Tasks[k].Start && taskResults[k].End == j.Tasks[k].End && taskResults[k].Skipped == j.Tasks[k].Skipped && taskResults[k].ExitCode == j.Tasks[k].ExitCode && taskResults[k].Errored == j.Tasks[k].Errored
 
 //@ property C08: server.jobToResult/ensures[C08.*] server.jobToResult/loop*
-//@ property C15: server.jobToResult/ensures[C15.*] server.jobToResult/loop*
+//@ property C15: server.jobToResult/ensures[C15.*] server.jobToResult/loop* server.*/safety
 //@ property C13: server.*/lock[read] server.*/lock[write] server.*/call-pre[*.lockmode]*
